@@ -84,6 +84,7 @@ def run(ctx):
             history = [(c, d, p) for c, d, ps in cfg for p in ps]   # the sequential run
             exp_items, exp_res = M.expected_items(history)
             terms, reported = [], 0
+            ref_digests = None
             for r in runs:
                 if r.get("err"):
                     ctx.violation({"kind": "schedule", "protocol": proto, "config": cfg, "error": r["err"],
@@ -103,6 +104,13 @@ def run(ctx):
                       and all(i["oriented"] for i in res["items"] or [])
                       and all(sorted(v) == list(range(len(v))) for v in idx.values())
                       and not any(e.startswith("panic") for e in res["ends"]))
+                # what every pair reports about its two messages is the same in every schedule (a message handed over
+                # before it is complete would show here)
+                dg = sorted((i["conn"], i["req"], i["resp"], i.get("digest", "")) for i in res["items"] or [])
+                if ref_digests is None:
+                    ref_digests = dg
+                elif dg != ref_digests and ok:
+                    ok = False
                 if not ok and reported < 3:
                     reported += 1
                     ctx.violation({"kind": "schedule", "protocol": proto, "config": cfg,
@@ -138,7 +146,10 @@ def run(ctx):
     # a conversation whose halves change protocol: the first request of the connection asks for h2c, the server declines.
     # No abstract pairing is expected here (the client half gives up after the upgrade request); the property itself is
     # the oracle: every schedule gives the result of the first one.
-    for xproto, cfg in [("httpup", c) for c in configs(ctx)[1:]] + [("redissub", c) for c in configs(ctx)[:4]] + [("kafkadesc", c) for c in configs(ctx)[1:4]]:
+    xs = [("httpup", c) for c in configs(ctx)[1:]] + [("redissub", c) for c in configs(ctx)[:4]] + [("kafkadesc", c) for c in configs(ctx)[1:4]]
+    # every message in two segments, every Read a scheduling point (a half can run while the other half's message is only partly there)
+    xs += [(p + "+rd", c) for p in ("kafka", "redis", "http", "amqp", "http2") for c in configs(ctx)[:2]]
+    for xproto, cfg in xs:
         args = ["conc", xproto, str(max_runs)] + ["%d:%s:%s" % (c, d, ",".join(map(str, ps))) for c, d, ps in cfg]
         rc, out = ctx.vh("vh-match", args, timeout=2400)
         lines = [json.loads(l) for l in out.split("\n") if l.startswith("{")]
@@ -152,7 +163,7 @@ def run(ctx):
                                "schedule": [s["Worker"] + "@" + s["Site"] for s in r["steps"]], "how": "vh-match " + " ".join(args)})
                 continue
             res = r["res"]
-            key = (sorted((i["conn"], i["req"], i["resp"], i["oriented"]) for i in res["items"] or []),
+            key = (sorted((i["conn"], i["req"], i["resp"], i["oriented"], i.get("digest", "")) for i in res["items"] or []),
                    sorted((x["conn"], x["key"], x["isreq"], x["pid"]) for x in res["residue"] or []), res["ends"])
             ctx.count_case((xproto, str(cfg), tuple(s["Worker"] + "@" + s["Site"] for s in r["steps"])), True, xproto)
             if ref is None:
